@@ -88,7 +88,8 @@ def _add_child_node(
 
     if res is False:
         # node_mapper wants to prevent adding standard attributes?
-        return False
+        # (still return the graph node: it is the subject of the child edges)
+        return graph_node
 
     # Add standard attributes
     if hasattr(tree_node, "kind"):
